@@ -103,6 +103,51 @@ def h02_rabbit_retry(S):
             info=f"confirm after delivery={bool(confirm)}: message is in {out['places'].get('m1')}, expected {want}")
 
 
+def h02_same_instant(S):
+    """Several messages whose reports fall on the same clock reading (same retry due time, same next slot): each of them is
+    requeued - none is dropped because another one already occupies that instant."""
+    from repid import Job, Router, Worker
+    from repid.converter import BasicConverter
+
+    n = S.pick("jobs", 2) + 2
+    kind = ["fail-with-a-retry-left", "recurring-success", "recurring-failure-exhausted"][S.pick("kind", 3)]
+    S.tag("kind", kind)
+    runs = []
+    out = {}
+
+    async def main(loop):
+        w = World()
+        await w.open(record=True)
+        r = Router()
+
+        @r.actor(converter=BasicConverter, retry_policy=lambda retry_number=1: real_timedelta(seconds=30))
+        async def job(i: int):
+            runs.append(i)
+            if kind != "recurring-success":
+                raise ValueError("x")
+
+        for i in range(n):
+            await Job("job", args={"i": i}, id_=f"m{i}", retries=1 if kind == "fail-with-a-retry-left" else 0,
+                      deferred_by=real_timedelta(hours=1) if kind.startswith("recurring") else None, _connection=w.conn).enqueue()
+        if kind.startswith("recurring"):
+            q = w.broker.queues["default"]
+            for t in list(q.delayed):
+                for m in q.delayed.pop(t):
+                    q.simple.put_nowait(m)
+        worker = Worker(routers=[r], handle_signals=[], _connection=w.conn, graceful_shutdown_time=1.0, messages_limit=n, tasks_limit=n)
+        await asyncio.wait_for(worker.run(), timeout=20)
+        out["places"] = {f"m{i}": place_names(w.places(), f"m{i}") for i in range(n)}
+        out["ops"] = {f"m{i}": [c["op"] for c in w.rec.calls if c["id"] == f"m{i}" and c["op"] != "enqueue"] for i in range(n)}
+
+    run_async(main)
+    S.cover("same-instant")
+    S.check("every-job-ran-once", sorted(runs) == list(range(n)), info=str(runs))
+    for i in range(n):
+        S.check("exactly-one-disposition", out["ops"][f"m{i}"] == ["requeue"], info=f"m{i}: {out['ops'][f'm{i}']}")
+        S.check("requeued-message-is-waiting-for-its-time", out["places"][f"m{i}"] == ["delayed"],
+                info=f"{kind}: m{i} was requeued and is now in {out['places'][f'm{i}']} (all: {out['places']})")
+
+
 def h02_rabbit_slow_settle(S):
     """RabbitMQ over a slow connection: the actor acks eagerly, the ack frame is out but the call is still draining when the
     execution timeout cancels the actor; whatever the worker does next, the delivery is settled once."""
@@ -423,6 +468,11 @@ HARNESSES += [
 ]
 ASSUMPTIONS = ["in-memory brokers; virtual time; message 1 placed directly in the waiting queue with symbolic retry counters"]
 HARNESSES += HARNESSES_EXTRA
+HARNESSES.append(Harness(name="H02-same-instant", scenario=h02_same_instant,
+                         bounds={"jobs": "2..3 processed concurrently by one worker, their reports made at the same clock reading",
+                                 "kind": "failure with a retry left / recurring success / recurring failure with retries exhausted"},
+                         functions=["connections/in_memory/message_broker.py:InMemoryMessageBroker.requeue", "_processor.py:_Processor.report_to_broker"],
+                         covers=["same-instant"]))
 
 from engine.harness import borrowed  # noqa: E402
 HARNESSES.append(borrowed("c16", "H16-redis-chain", "H02-redis-chain"))   # retries over Redis deliveries: requeue while budget remains, refusal/nack after
